@@ -341,7 +341,8 @@ def body_make_environ(I, X, n=3, skel="/{}", method="GET", hs=0, sym_header=Fals
         X.assume(pall_in(hval, [(0x20, 0x7E)]))
     else:
         hval = "v"
-    pairs = [(k, v) for k, v in HEADER_SETS[hs]] + [("X-Sym", hval)]
+    # the solver value also opens a repeated header (it may be empty: the join keeps it)
+    pairs = [(k, v) for k, v in HEADER_SETS[hs]] + [("X-Sym", hval), ("X-Rep", hval), ("X-Rep", "b"), ("X-Rep", hval)]
 
     h = object.__new__(srv.WSGIRequestHandler)
     h.path = target
